@@ -900,7 +900,7 @@ func (s *sandboxFacts) checkInheritance(r *Report, choke map[*ssa.Function]bool)
 			}
 		}
 	}
-	r.floor("derived-context construction sites", nSites, 3)
+	r.floor("derived-context construction sites", nSites, 1)
 
 	// R06.3
 	nStores := 0
@@ -1610,7 +1610,7 @@ func checkNestedContextsKeepEnvironment(w *World, r *Report) {
 			}
 		})
 	}
-	r.floor("environments handed to nested contexts", n, 3)
+	r.floor("environments handed to nested contexts", n, 1)
 }
 
 // checkPolicyQuestionsAgree — R06.13: every place that asks the security policy about a filter
